@@ -3134,6 +3134,14 @@ func (ts *TokenStore) handleCreateCommon(ctx context.Context, req *logical.Reque
 	// Root tokens are still bound by explicit max TTL
 	if te.TTL == 0 && explicitMaxTTLToUse > 0 {
 		te.TTL = explicitMaxTTLToUse
+
+		// An expiring parent must not be able to mint a root token that
+		// outlives every configured maximum simply by naming a huge explicit
+		// max TTL (the TTL calculation above is skipped for root tokens).
+		if maxTTL := sysView.MaxLeaseTTL(); parent.TTL != 0 && maxTTL > 0 && te.TTL > maxTTL {
+			resp.AddWarning(fmt.Sprintf("TTL of %q exceeded the effective max_ttl of %q; TTL value is capped accordingly", te.TTL, maxTTL))
+			te.TTL = maxTTL
+		}
 	}
 
 	// Don't advertise non-expiring root tokens as renewable, as attempts to
